@@ -252,7 +252,7 @@ Definition cmp_push_bounds (c : cmp_attrs) (op : cmpop) (w : wcb) : wcb * bool :
                if is_effects_to source op && ub
                then push_bounds w (c_bounds (cmp_get c source))
                else (w, ub))
-            cmp_variants (w, true).
+            (rev cmp_variants) (w, true).
 
 Definition push_bounds_to_raw (h : hattrs) (use_bounds use_helper : bool) (k : kind) (w : wcb)
   : wcb * bool :=
